@@ -186,7 +186,7 @@ def execute_plan(check, plan, keep_log=False):
     return res
 
 
-def run_in_child(check, plan, timeout=90, keep_log=False, want_decisions=False):
+def run_in_child(check, plan, timeout=150, keep_log=False, want_decisions=False):
     """Fork, run the plan in the child, return its result dict."""
     r, w = os.pipe()
     pid = os.fork()
@@ -265,9 +265,11 @@ def _worker(check, wid, nworkers, directed, base_seed, max_random, deadline, wfd
 
     def run(plan):
         res = run_in_child(check, plan)
-        if res.get('harness_error') and 'wall timeout' in str(res['harness_error']):
-            # the machine may be overloaded: a wall-clock kill says nothing about the property; try once more, alone
-            res = run_in_child(check, plan, timeout=240)
+        he = str(res.get('harness_error') or '')
+        if 'wall timeout' in he or 'no/invalid result' in he:
+            # the machine may be overloaded (the watchdog of the child fires 5 s before the wall limit and ends it without
+            # a result): a wall-clock kill says nothing about the property; try once more with a much longer limit
+            res = run_in_child(check, plan, timeout=900)
         return res
 
     for i in range(wid, len(directed), nworkers):
